@@ -133,7 +133,9 @@ def run_harness(binary, outdir, seed, tier, mult=1, only=-1, extra="", timeout=3
 
 def _run_shard(path):
     t0 = time.time()
-    rc, out = coqc_file(path, timeout=1700)
+    # coqtop -batch evaluates the file without writing a .vo (the shard is only evaluated, never required)
+    rc, out = sh(["timeout", "1700", "coqtop", "-Q", COQ, "Emitter", "-w", "-notation-overridden", "-batch", "-l", path],
+                 cwd=os.path.dirname(path))
     first = 0
     m = re.search(r"first case index (\d+)", open(path).readline())
     if m:
